@@ -242,6 +242,8 @@ package hashgraph
 //@ ghost field Store blocks gmap[int, *Block]
 //@ ghost field Store pset gmap[int, *peers.PeerSet]
 //@ ghost field Store psetOK bool
+//   bodies  index -> the block body as it was when the block was last stored (what a persistent store keeps)
+//@ ghost field Store bodies gmap[int, BlockBody]
 
 //@ iface func (s Store) GetBlock(index int) (*Block, error)
 //@   modifies nothing
@@ -250,9 +252,9 @@ package hashgraph
 
 //@ iface func (s Store) SetBlock(block *Block) error
 //@   requires block != nil
-//@   modifies G_blocks(s), G_fault(s)
-//@   ensures[set]   ret0 == nil ==> __eq(G_blocks(s), __upd(old(G_blocks(s)), block.Body.Index, block))
-//@   ensures[fail]  ret0 != nil ==> __eq(G_blocks(s), old(G_blocks(s))) && G_fault(s)
+//@   modifies G_blocks(s), G_bodies(s), G_fault(s)
+//@   ensures[set]   ret0 == nil ==> __eq(G_blocks(s), __upd(old(G_blocks(s)), block.Body.Index, block)) && __eq(G_bodies(s), __upd(old(G_bodies(s)), block.Body.Index, block.Body))
+//@   ensures[fail]  ret0 != nil ==> __eq(G_blocks(s), old(G_blocks(s))) && __eq(G_bodies(s), old(G_bodies(s))) && G_fault(s)
 //@   ensures[nofix] old(G_fault(s)) ==> G_fault(s)
 
 //@ iface func (s Store) GetPeerSet(round int) (*peers.PeerSet, error)
@@ -285,13 +287,13 @@ package hashgraph
 
 //@ func (h *Hashgraph) ProcessSigPool() error
 //@   requires h != nil && h.PendingSignatures != nil && h.PendingSignatures.items != nil && StoredBlocksSeparate(h.Store)
-//@   modifies h.AnchorBlock, anyptr int, anymap map[string]string, h.PendingSignatures.items[*], G_blocks(h.Store), G_fault(h.Store)
+//@   modifies h.AnchorBlock, anyptr int, anymap map[string]string, h.PendingSignatures.items[*], G_blocks(h.Store), G_bodies(h.Store), G_fault(h.Store)
 //@   ensures[recorded-only-if-valid] forall i int, v string :: __in(i, G_blocks(h.Store)) && G_blocks(h.Store)[i] != nil && __in(v, G_blocks(h.Store)[i].Signatures) && (!old(__in(v, G_blocks(h.Store)[i].Signatures)) || G_blocks(h.Store)[i].Signatures[v] != old(G_blocks(h.Store)[i].Signatures[v])) ==> ValidSigEntry(G_blocks(h.Store)[i], G_pset(h.Store)[G_blocks(h.Store)[i].Body.RoundReceived], v)
 //@   ensures[kept]      forall i int, v string :: __in(i, G_blocks(h.Store)) && G_blocks(h.Store)[i] != nil && old(__in(v, G_blocks(h.Store)[i].Signatures)) ==> __in(v, G_blocks(h.Store)[i].Signatures)
 //@   ensures[bodies]    __eq(G_blocks(h.Store), old(G_blocks(h.Store))) && (forall i int :: __in(i, G_blocks(h.Store)) && G_blocks(h.Store)[i] != nil ==> __eq(G_blocks(h.Store)[i].Body, old(G_blocks(h.Store)[i].Body)) && __eq(G_blocks(h.Store)[i].Signatures, old(G_blocks(h.Store)[i].Signatures)))
 //@   ensures[total]     !G_fault(h.Store) ==> ret0 == nil
 //@   ensures[anchor]    old(h.AnchorBlock) != nil ==> h.AnchorBlock != nil && *h.AnchorBlock >= old(*h.AnchorBlock)
-//@   loop 1 modifies h.AnchorBlock, anyptr int, anymap map[string]string, h.PendingSignatures.items[*], G_blocks(h.Store), G_fault(h.Store)
+//@   loop 1 modifies h.AnchorBlock, anyptr int, anymap map[string]string, h.PendingSignatures.items[*], G_blocks(h.Store), G_bodies(h.Store), G_fault(h.Store)
 //@   loop 1 invariant[valid]  forall i int, v string :: __in(i, G_blocks(h.Store)) && G_blocks(h.Store)[i] != nil && __in(v, G_blocks(h.Store)[i].Signatures) && (!old(__in(v, G_blocks(h.Store)[i].Signatures)) || G_blocks(h.Store)[i].Signatures[v] != old(G_blocks(h.Store)[i].Signatures[v])) ==> ValidSigEntry(G_blocks(h.Store)[i], G_pset(h.Store)[G_blocks(h.Store)[i].Body.RoundReceived], v)
 //@   loop 1 invariant[kept]   forall i int, v string :: __in(i, G_blocks(h.Store)) && G_blocks(h.Store)[i] != nil && old(__in(v, G_blocks(h.Store)[i].Signatures)) ==> __in(v, G_blocks(h.Store)[i].Signatures)
 //@   loop 1 invariant[bodies] __eq(G_blocks(h.Store), old(G_blocks(h.Store))) && (forall i int :: __in(i, G_blocks(h.Store)) && G_blocks(h.Store)[i] != nil ==> __eq(G_blocks(h.Store)[i].Body, old(G_blocks(h.Store)[i].Body)) && __eq(G_blocks(h.Store)[i].Signatures, old(G_blocks(h.Store)[i].Signatures)))
@@ -317,3 +319,12 @@ package hashgraph
 //@   ensures[creator-only] ret1 == nil ==> (forall k int :: 0 <= k && k < len(ret0.Body.BlockSignatures) ==> __seqeq(ret0.Body.BlockSignatures[k].Validator, ret0.Body.Creator))
 //@   ensures[payload]      ret1 == nil ==> __eq(ret0.Body.Transactions, wevent.Body.Transactions) && __eq(ret0.Body.InternalTransactions, wevent.Body.InternalTransactions) && ret0.Body.Index == wevent.Body.Index && ret0.Body.Timestamp == wevent.Body.Timestamp && ret0.Signature == wevent.Signature
 //@   ensures[sigs]         ret1 == nil ==> (wevent.Body.BlockSignatures == nil) == (ret0.Body.BlockSignatures == nil) && len(ret0.Body.BlockSignatures) == len(wevent.Body.BlockSignatures) && (forall k int :: 0 <= k && k < len(ret0.Body.BlockSignatures) ==> ret0.Body.BlockSignatures[k].Index == wevent.Body.BlockSignatures[k].Index && ret0.Body.BlockSignatures[k].Signature == wevent.Body.BlockSignatures[k].Signature)
+
+// BlockSignedBy: sig is a signature, by priv, of the block's body as it is now.
+//@ ghost func BlockSignedBy(priv *ecdsa.PrivateKey, b *Block, sig string) bool { return keys.SignedBy(priv, HBlock(b.Body), sig) }
+
+//@ func (b *Block) Sign(privKey *ecdsa.PrivateKey) (bs BlockSignature, err error)
+//@   requires b != nil && privKey != nil
+//@   modifies nothing
+//@   ensures[signed] err == nil ==> bs.Index == b.Body.Index && keys.SignedBy(privKey, HBlock(b.Body), bs.Signature)
+//@ import "crypto/ecdsa"
